@@ -140,9 +140,7 @@ func RunC01(tier string) int {
 		if restored > 0 && executedAfterEdit > 0 {
 			run.Nontrivial(s.Shape() + "|" + strings.Join(opNames, ","))
 		}
-		if i < 2 {
-			run.Sample(map[string]any{"case": i, "shape": s.Shape(), "history": env.Log})
-		}
+		run.Sample(map[string]any{"case": i, "shape": s.Shape(), "history": env.Log})
 	})
 	run.Assume("generated commands are deterministic functions of declared inputs and dependency outputs (by construction)")
 	run.Assume("the reference bytes come from vctl's pure Produce function, which is also what the commands execute")
